@@ -46,7 +46,9 @@ def run(chk):
                        "PARTIAL: creation_denotes (GE/Thm/C04Tag.lean) proves, over the tag-level model GE/Model/TagSem.lean (text, elements with plain attributes, "
                        "<block>, <include>, <template is data>, wx:if / elif / else chains, wx:for with and without key; expressions abstract), that the elements and text nodes creation builds are, in "
                        "document order, exactly the ones the template denotes; the model is compared with the real compiler + runtime on generated templates and "
-                       "data (corr:tagsem: structure, attribute values, branch keys, list indexes, node reuse). Slots, the other attribute "
+                       "data (corr:tagsem: structure, attribute values, branch keys, list indexes, node reuse); the step before it, from the tags of the source to that template "
+                       "tree (control-attribute priority, wx:elif / wx:else looking back over comments for their group, <block> dissolving), is GE/Model/TagTree.lean, compared with the "
+                       "real parser on generated tag sequences (corr:tagtree). Slots, the other attribute "
                        "families and the generated JavaScript text between template and runtime are covered by the reference-render oracle only; the Lean part also "
                        "proves the branch selector statement and name normalisation"]
     chk.model_tie([("GE.Thm.C04", THEOREMS), ("GE.Thm.C04Tag", ["GE.TagSem.creation_denotes", "GE.TagSem.create_denotes", "GE.TagSem.firstTrue_range"])])
@@ -54,6 +56,9 @@ def run(chk):
     # the tag-level model (creation_denotes is about it) vs the real compiler + runtime: the node tree after creation (and after updates)
     from . import tagsem
     tagsem.stream(chk, chk.rng.fork("tagsem"), 200 if quick else 4000)
+    # from the tags to the tree that model starts from: which wx:if group, wx:for or <block> every start tag ends up in (GE/Model/TagTree.lean vs the real parser)
+    from . import tagtree
+    tagtree.stream(chk, chk.rng.fork("tagtree"), 600 if quick else 20000)
     # ---- names: model vs hook -----------------------------------------------------------------
     names = ["a", "a-b", "a-b-c", "-a", "a-", "a--b", "A-b", "a-B", "x1-2y", "é-ü", "a.b-c", "hover-class", "data-a-b", "_-_", "-", "--", ""]
     for i in range(200 if quick else 3000):
